@@ -160,8 +160,8 @@ func n6atoi(s string) int {
 }
 
 func n6args(op string) (name string, args []string) {
-	name, rest, _ := strings.Cut(op, ":")
-	if rest == "" {
+	name, rest, found := strings.Cut(op, ":")
+	if !found {
 		return name, nil
 	}
 	return name, strings.Split(rest, ",")
